@@ -332,6 +332,14 @@ func runC09(r *Report, rng *rand.Rand, thorough bool) {
 			"union": map[string]any{"type": "UPrim", "init": pv, "ops": []map[string]any{{"method": "MarshalJSON"}}}})
 		metas[fmt.Sprintf("UPrim/%d", k)] = meta{kind: "prim", init: map[string]any{"v": pv}}
 	}
+	// a member that is not an object, stored through its From accessor (and over a stored object): As and MarshalJSON
+	// must give it back
+	for k, pv := range []any{"text", 42, []string{"a", "b"}, map[string]any{"z": true}} {
+		id := fmt.Sprintf("UPrim/from/%d", k)
+		scenarios = append(scenarios, map[string]any{"id": id, "pkg": "c09_u", "opts": map[string]any{"short_circuit": -1, "strict_short_circuit": -1},
+			"union": map[string]any{"type": "UPrim", "ops": []map[string]any{{"method": "FromUPrim3", "arg": map[string]any{"z": false}}, {"method": fmt.Sprintf("FromUPrim%d", k), "arg": pv}, {"method": fmt.Sprintf("AsUPrim%d", k)}, {"method": "MarshalJSON"}}}})
+		metas[id] = meta{kind: "primfrom", init: map[string]any{"v": pv}}
+	}
 	holder := map[string]any{"pet": map[string]any{"petType": "cat", "lives": 3}, "pets": []any{map[string]any{"petType": "dog", "bark": true}, map[string]any{"petType": "bird", "wings": 2}}, "byName": map[string]any{"rex": map[string]any{"petType": "dog", "bark": false}}}
 	scenarios = append(scenarios, map[string]any{"id": "Holder/round", "pkg": "c09_u", "opts": map[string]any{"short_circuit": -1, "strict_short_circuit": -1}, "round": map[string]any{"type": "Holder", "json": holder}})
 	metas["Holder/round"] = meta{kind: "holder", init: holder}
@@ -382,6 +390,11 @@ func runC09(r *Report, rng *rand.Rand, thorough bool) {
 		case "holder":
 			if !jsonEqual(res.Out[0], json.RawMessage(canon(m.init))) {
 				r.Violate("nested_union_roundtrip", fmt.Sprintf("Holder %s -> %s", canon(m.init), string(res.Out[0])), replay)
+			}
+		case "primfrom":
+			want := json.RawMessage(canon(m.init["v"]))
+			if len(outs) < 4 || outs[1].Error != "" || outs[2].Error != "" || !jsonEqual(outs[2].Value0, want) || outs[3].Error != "" || !jsonEqual(outs[3].Value, want) {
+				r.Violate("non_object_member_from_as_marshal", fmt.Sprintf("UPrim: From(%s) over a stored object, then As and MarshalJSON: %+v", canon(m.init["v"]), outs), replay)
 			}
 		case "prim":
 			if outs[0].Error != "" || !jsonEqual(outs[0].Value, json.RawMessage(canon(m.init["v"]))) {
@@ -542,5 +555,5 @@ func runC09(r *Report, rng *rand.Rand, thorough bool) {
 		}
 	}
 	ucases.WriteTo(r)
-	r.Rule = "unions of 1-3 referenced object members (oneOf / anyOf), without discriminator, with explicit / implicit / partial / many-to-one mappings (fixed and random), with fixed properties and with additionalProperties, a union of primitives / array / inline object, and unions nested in a property, an array and a map; for every member and generated member values: From then As, MarshalJSON, Discriminator, ValueByDiscriminator, From then Merge, unmarshal then marshal, and ValueByDiscriminator for EVERY mapped value plus unmapped ones, all called on the compiled generated code by reflection; compared with the statement and with the model in Coq; non-trivial = a discriminator, a merge or a dispatch"
+	r.Rule = "unions of 1-3 referenced object members (oneOf / anyOf), without discriminator, with explicit / implicit / partial / many-to-one mappings (fixed and random), with fixed properties and with additionalProperties, a union of primitives / array / inline object (decoded, and stored through From over a stored object), and unions nested in a property, an array and a map; for every member and generated member values: From then As, MarshalJSON, Discriminator, ValueByDiscriminator, From then Merge, unmarshal then marshal, and ValueByDiscriminator for EVERY mapped value plus unmapped ones, all called on the compiled generated code by reflection; compared with the statement and with the model in Coq; non-trivial = a discriminator, a merge or a dispatch"
 }
